@@ -96,6 +96,22 @@ Proof.
 Qed.
 Print Assumptions C09_op_table_sound_cpp.
 
+(** Lengths are outside [C09_op_table_sound_cpp]: [len(x)] is an unsigned [std::size_t] in
+    C++. Comparisons of length expressions agree with Python as long as no intermediate
+    value is negative ([_partial]); [len(s) + 1 > len(t) - 1] with an empty [t] does not
+    ([_refuted]; found by the compile-and-run stream, known finding
+    [run:cpp:verdict:unsigned-length]). *)
+Theorem C09_cpp_length_cmp_partial : forall op l r,
+  0 <= l < 18446744073709551616 -> 0 <= r < 18446744073709551616 ->
+  cpp_len_cmp op l r = z_cmp op l r.
+Proof. exact cpp_len_cmp_sound. Qed.
+Print Assumptions C09_cpp_length_cmp_partial.
+
+Theorem C09_cpp_length_arithmetic_refuted :
+  exists op l r, z_cmp op l r <> cpp_len_cmp op l r.
+Proof. exact cpp_length_arithmetic_refuted. Qed.
+Print Assumptions C09_cpp_length_arithmetic_refuted.
+
 (** ** Java. Full statement (false):
       forall op tok v w jv jw, lookup_cmp java_comparison_map op = Some tok ->
         comparable op v w -> java_repr v jv -> java_repr w jw ->
@@ -133,23 +149,24 @@ Theorem C09_op_table_java_refuted_boxed_long :
 Proof. exact (java_refuted_long_of_table _ C09_gen_table_java). Qed.
 Print Assumptions C09_op_table_java_refuted_boxed_long.
 
-(** Where both operands are references the (repaired) Java transpiler writes
-    [Objects.equals(l, r)] / [![Objects.equals(l, r)]] instead of the table token; on two
-    references that computes Python's [==] / [!=] for every comparable pair. The
-    generated template list is empty on a tree without the repair — then
-    [C09_op_table_java_refuted] is a defect of the generated SDK, found again by the
-    compile-and-run stream. *)
+(** What a repair would have to emit. The transpiler as it is writes the table token
+    [==] / [!=] between two references (so [C09_op_table_java_refuted] describes the
+    generated SDK; known finding [run:java:verdict:boxed-equality]). For comparison,
+    [java.util.Objects.equals(l, r)] / [!Objects.equals(l, r)] on two references
+    *would* compute Python's [==] / [!=] for every comparable pair. Nothing here claims
+    that the code emits it: [java_value_eq_templates] is the list of such templates
+    found in [transform_comparison], and it is empty on the current tree. *)
 Theorem C09_gen_java_value_equality : value_eq_templates_ok java_value_eq_templates = true.
 Proof. vm_compute. reflexivity. Qed.
 Print Assumptions C09_gen_java_value_equality.
 
-Theorem C09_java_value_equality_sound : forall op v w a b x y,
+Theorem C09_objects_equals_would_be_sound : forall op v w a b x y,
   (op = EQ \/ op = NE) -> comparable op v w ->
   java_repr v (JRef a x) -> java_repr w (JRef b y) ->
   sem_java_objects_equals (match op with NE => true | _ => false end) (JRef a x) (JRef b y)
   = py_cmp op v w.
 Proof. exact java_objects_equals_sound. Qed.
-Print Assumptions C09_java_value_equality_sound.
+Print Assumptions C09_objects_equals_would_be_sound.
 
 (** ** TypeScript. Full statement (false):
       forall op tok v w, lookup_cmp typescript_comparison_map op = Some tok ->
